@@ -234,8 +234,8 @@ func (r *c14run) hostile(g *c14gen, run func(string) error) error {
 				if !c14Opaque[cmd] && g.r.Intn(12) == 0 {
 					ebsWide = 3200000000
 				}
-				wire.SetLimits(ebs)
-				mmp := uint64(wire.VerifMaxMessagePayload())
+				c14Configure([]uint32{ebs})
+				mmp := uint64(c14DeclaredLimit(ebs))
 				payload := g.validPayload(cmd, pver, rep == 1 && g.r.Intn(4) == 0 && !c14Opaque[cmd])
 				if payload == nil {
 					payload = g.bytesN(g.r.Intn(40))
@@ -440,8 +440,8 @@ func (r *c14run) streams(g *c14gen, run func(string) error) error {
 		if i%11 == 10 {
 			ebs = 1000000 // maxMessagePayload = 2 MiB
 		}
-		wire.SetLimits(ebs)
-		mmp := wire.VerifMaxMessagePayload()
+		c14Configure([]uint32{ebs})
+		mmp := c14DeclaredLimit(ebs)
 		valid := func() []byte {
 			cmd := small[g.r.Intn(len(small))]
 			if g.r.Intn(12) == 0 {
